@@ -92,7 +92,10 @@ def scan_file(path, modpath, out):
                     part = re.sub(r'^pub(\([a-z: ]+\))?\s+', '', part)
                     if not part:
                         continue
-                    fields.append(part.split(':', 1)[0].strip())
+                    fname = part.split(':', 1)[0].strip()
+                    if fname.startswith('r#'):
+                        fname = fname[2:]        # raw identifier: MIR prints the bare name
+                    fields.append(fname)
                 out[full] = StructDef(full, fields, False)
             elif src[i] == '(':
                 j = find_matching(src, i)
